@@ -113,7 +113,7 @@ def model_case(case):
 
 
 def compare(case, mo, io):
-    io = [x for x in io if not (isinstance(x, list) and x and x[0] == "calls")]
+    io = [x for x in io if not (isinstance(x, list) and x and x[0] in ("calls", "shared-parameter-object-served"))]
     if is_err(mo) or is_err(io):
         return None if mo[:2] == io[:2] else f"outcome differs: model {sx.show(mo[:2])} impl {sx.show(io[:2])}"
     return None if mo == io else f"model {sx.show(mo)[:300]} impl {sx.show(io)[:300]}"
@@ -131,6 +131,10 @@ def oracle(case, io, mo):
         su = case[2] in (1, "1") and k == "setp"
         g = case[3]
         calls = [x for x in io[1:] if x and x[0] == "calls"]
+        for x in io[1:]:
+            if x and x[0] == "shared-parameter-object-served":
+                return (f"one parameter object held by all {x[3]} distinct leaves: mutate_parameter served it {x[1]} times "
+                        "(the function is applied once per distinct leaf, whatever the leaves hold)")
         got = {int(i): (None if v == "none" else int(v)) for i, v in io[1:] if i != "calls"}
         if calls and k == "setp":
             want = sum(1 for i in ids if heap.get(i) is not None or su)
